@@ -146,7 +146,7 @@ pub fn damage(r: &Rendering) -> Vec<Damaged> {
     // 5c. the same for a quoted scalar inside a flow collection: a line break before its closing quote,
     // the continuation at the enclosing block's column or left of it
     for m in &r.marks {
-        if let Mark::FlowQuoted { start, end, parent } = m {
+        if let Mark::FlowQuoted { start, end, parent, .. } = m {
             if *parent < 0 || *end < *start + 2 {
                 continue;
             }
@@ -155,6 +155,18 @@ pub fn damage(r: &Rendering) -> Vec<Damaged> {
                 s.insert_str(*end - 1, &format!("\n{}x", " ".repeat(c)));
                 out.push(Damaged { op: 5, variant: "flow-dedent quoted-scalar-continuation", site: *end, text: s });
             }
+        }
+    }
+    // 6b. line break inside the quoted implicit key of a brace-less pair in a flow sequence (such a key
+    // is confined to one line; the continuation is indented well inside the collection)
+    for m in &r.marks {
+        if let Mark::FlowQuoted { start, end, parent, seq_pair_key: true } = m {
+            if *end < *start + 2 {
+                continue;
+            }
+            let mut s = t.clone();
+            s.insert_str(*end - 1, &format!("\n{}x", " ".repeat((*parent + 4).max(1) as usize)));
+            out.push(Damaged { op: 6, variant: "multi-line-quoted-key flow-sequence-pair", site: *start, text: s });
         }
     }
     // 6. line break inside a quoted implicit key of a block mapping; 7. implicit key of 1025 characters
